@@ -1093,9 +1093,7 @@ def _flagged(name):
     return pred
 
 
-# region of the known finding (same name as the Bool predicate in Model/C14.lean)
-REGIONS = {"setslice_self_extended": _flagged("setslice_self_extended"),
-           "count_nan_nonnumeric": _flagged("count_nan_nonnumeric")}
+REGIONS = {}          # no known finding at present (every defect found by this check is fixed in /repo)
 
 
 def nontrivial(line):
@@ -1243,7 +1241,7 @@ def random_op(ref, rng, allow_bad=True):
         # slice assignment from an Array of the same dtype (its trailing bits must not come along) or from itself
         a, b, c = _slice_args(rng, n)
         if rng.random() < 0.3:
-            return f"sslself:{sv(a)}:{sv(b)}:{sv(c if c in (None, 1) else None)}"
+            return f"sslself:{sv(a)}:{sv(b)}:{sv(c)}"
         k = len(range(*slice(a, b, c).indices(n))) if c not in (None, 1) else rng.choice([0, 1, 2, 3])
         return f"ssla:{sv(a)}:{sv(b)}:{sv(c)}:{dt.s}:{_vsstr(rvals(dt, rng, k))}:{sv(None if rng.random() < 0.4 else wire(rtrail(dt, rng, 1.0) or ''))}"
     if r < 0.89:
@@ -1675,7 +1673,7 @@ def gen(rng, tier):
         for x in dict.fromkeys(strs):
             lits += [x, x.upper(), pre + x, x.capitalize(), int(x, {"hex": 16, "bin": 2, "oct": 8}[dt.name]), x + "0", x[:-1] + ("" if len(x) > 1 else "0")]
         lits += [1.0, b"ab", True, ""]
-        yield cnt_line(dt, None, [nan], None, vals)                  # (known finding count-nan-nonnumeric: own line)
+        yield cnt_line(dt, None, [nan], None, vals)                  # (fixed dd3a1bd: count(nan) on str items is 0)
         yield cnt_line(dt, None, lits[:24], None, vals)
         yield cnt_line(dt, None, rng.sample(lits, min(8, len(lits))), rtrail(dt, rng, 1.0), vals)
     for tok in [t for t in BYTES_TOKENS if D(t).w]:
